@@ -358,6 +358,39 @@ def run_case(case, ctx):
         if np.any(d > b2):
             ctx.reject('hessdiag_differs_from_hessian_diagonal', observed=hd, expected=np.diag(H), method=method, n=n)
             return
+    if case['seed'] % 6 == 5 and variant == 'plain' and method != 'central2':
+        # parameters given at call time belong to that call: a call with a = 2 is interrupted (f itself uses the object) by a complete
+        # call with a = 3, for Hessian and Hessdiag; both equal what fresh objects return for them, bit for bit
+        for cname in ('Hessian', 'Hessdiag'):
+            state = dict(k=0, busy=False, inner=None)
+            holder = []
+
+            def f_par(z, a_=1.0):
+                if a_ == 2.0 and not state['busy']:
+                    state['k'] += 1
+                    if state['k'] == 2:
+                        state['busy'] = True
+                        state['inner'] = np.array(holder[0](np.array(x, dtype=float), 3.0), copy=True)
+                        state['busy'] = False
+                return a_ * f0(z)
+            okw = dict(method=method) if cname == 'Hessian' else dict(method=method, order=case['hd_order'])
+            try:
+                with np.errstate(all='ignore'):
+                    holder.append(getattr(nd, cname)(f_par, **okw))
+                    outer = np.asarray(holder[0](np.array(x, dtype=float), 2.0))
+                    ref_o = np.asarray(getattr(nd, cname)(lambda z, a_=1.0: a_ * f0(z), **okw)(np.array(x, dtype=float), 2.0))
+                    ref_i = np.asarray(getattr(nd, cname)(lambda z, a_=1.0: a_ * f0(z), **okw)(np.array(x, dtype=float), 3.0))
+                if state['inner'] is None:
+                    ctx.count('overlapping_call_not_reached(single evaluation)')
+                    continue
+                ctx.count('overlapping_calls_with_different_parameters')
+                if outer.tobytes() != ref_o.tobytes() or np.asarray(state['inner']).tobytes() != ref_i.tobytes():
+                    ctx.reject('result_depends_on_an_overlapping_call_with_other_parameters', observed=np.ravel(outer)[:4], expected=np.ravel(ref_o)[:4],
+                               detail=dict(cls=cname, overlapping='re-entrant use'), method=method, n=n)
+                    return
+            except Exception as exc:
+                ctx.reject('hessian_raised', observed='%s: %s' % (type(exc).__name__, str(exc)[:150]), method=method, variant='overlapping', n=n, family=family)
+                return
     offmax = max([abs(exact[i, j]) for i in range(n) for j in range(n) if i != j] or [0.0])
     if n > 1 and offmax >= 1e-2 * float(np.max(np.abs(exact))):
         ctx.nontrivial((n, method, family, variant))
